@@ -67,6 +67,8 @@ def case(rng):
     c = {"url": url, "post": probe(rng), "gets": gets, "token": rng.choice([None, None, "tok", "Bearer t"])}
     if rng.random() < 0.04:
         c["client_fails"] = True   # the HTTP client cannot even be created
+    if rng.random() < 0.3:
+        c["debug"] = True   # the host has logging configured at DEBUG
     if rng.random() < 0.25:
         # URLs for try_sse_with_fallback: text of the guidance tests inside an invalid URL ends up in the exception text
         c["sse_try"] = rng.choice(["ftp://h/404", "h.test/Not Found", "ws://h/405/x", "ftp://h/method not allowed", "ftp://h/x", "", "http://h.test/404/"])
@@ -85,6 +87,7 @@ def directed():
     out.append({"url": "http://h.test/mcp", "post": {"status": 200, "ct": "application/json"}, "gets": [], "token": None, "client_fails": True})
     for u in ("ftp://h/404", "ftp://h/METHOD NOT ALLOWED", "ftp://h/x", "http://h.test/sse/"):
         out.append({"url": "http://h.test/mcp", "post": "exc", "gets": [], "token": None, "sse_try": u})
+    out += [dict(c, debug=True) for c in out[::3]]
     for url in ("", "ftp://h/mcp", "h.test/mcp", "http://h.test/mcp/", "https://h.test", "http://h.test/MCP", "http://mcp.h.test/events"):
         out.append({"url": url, "post": {"status": 200, "ct": "application/json"}, "gets": [], "token": None})
     return out
@@ -242,12 +245,19 @@ def factory_expected(obs):
 
 
 def run_case(case):
+    restore = None
     try:
+        if case.get("debug"):
+            from .await_h import _debug_logging
+            restore = _debug_logging()
         return vloop.run(_run, case)
     except BaseException as ex:  # noqa
         if isinstance(ex, (KeyboardInterrupt, SystemExit)):
             raise
         return {"harness_error": repr(ex)[:300]}
+    finally:
+        if restore is not None:
+            restore()
 
 
 def wire_table(case):
